@@ -13,14 +13,16 @@ Trace == ndJsonDeserialize("trace.ndjson")
 
 VARIABLES l,        \* next trace line
           content,  \* block index -> value
-          pend      \* goroutine -> [op, b, k, v, lin (BOOLEAN), res]  for its operation in progress
+          pos,      \* handle -> implicit offset (in blocks) of the File: advanced by the position-based Read ("P")
+          pend      \* goroutine -> [op, b, k, v, hd, lin (BOOLEAN), res]  for its operation in progress
 
-vars == <<l, content, pend>>
+vars == <<l, content, pos, pend>>
 
 NBlocks == 16
 Fresh == [i \in 0..(NBlocks - 1) |-> 0]
 
-Init == l = 1 /\ content = Fresh /\ pend = <<>> /\ TLCSet(1, 1)
+Pos0 == [h \in 0..1 |-> 0]
+Init == l = 1 /\ content = Fresh /\ pos = Pos0 /\ pend = <<>> /\ TLCSet(1, 1)
 
 Put(f, k, v) == [x \in DOMAIN f \cup {k} |-> IF x = k THEN v ELSE f[x]]
 Del(f, k) == [x \in DOMAIN f \ {k} |-> f[x]]
@@ -29,6 +31,7 @@ Del(f, k) == [x \in DOMAIN f \ {k} |-> f[x]]
 ResultOf(p) ==
   CASE p.op = "W" -> <<>>
     [] p.op = "R" -> [i \in 1..p.k |-> content[p.b + i - 1]]
+    [] p.op = "P" -> [i \in 1..p.k |-> content[pos[p.hd] + i - 1]]      \* File.Read: k blocks at the handle's implicit offset
     [] p.op = "S" -> <<NBlocks>>
 ContentAfter(p) ==
   IF p.op = "W" THEN [i \in 0..(NBlocks - 1) |-> IF i >= p.b /\ i < p.b + p.k THEN p.v ELSE content[i]] ELSE content
@@ -37,27 +40,28 @@ Ev == Trace[l]
 
 Reset ==
   /\ l <= Len(Trace) /\ Ev.ev = "Reset" /\ pend = <<>>
-  /\ content' = Fresh /\ pend' = <<>> /\ l' = l + 1
+  /\ content' = Fresh /\ pos' = Pos0 /\ pend' = <<>> /\ l' = l + 1
 
 Skip ==
   /\ l <= Len(Trace) /\ Ev.ev \notin {"Reset", "LCall", "LRet", "LHang", "IdStress"}    \* LHang (an operation never returned) matches no action: the search stops there
-  /\ l' = l + 1 /\ UNCHANGED <<content, pend>>
+  /\ l' = l + 1 /\ UNCHANGED <<content, pos, pend>>
 
 (* the stress of the request-id draw: accepted only if all ids drawn concurrently were distinct (replies are routed by id) *)
 IdStress ==
   /\ l <= Len(Trace) /\ Ev.ev = "IdStress" /\ Ev.distinct = Ev.draws
-  /\ l' = l + 1 /\ UNCHANGED <<content, pend>>
+  /\ l' = l + 1 /\ UNCHANGED <<content, pos, pend>>
 
 Call ==
   /\ l <= Len(Trace) /\ Ev.ev = "LCall" /\ Ev.g \notin DOMAIN pend
-  /\ pend' = Put(pend, Ev.g, [op |-> Ev.op, b |-> Ev.b, k |-> Ev.k, v |-> Ev.v, lin |-> FALSE, res |-> <<>>])
-  /\ l' = l + 1 /\ UNCHANGED content
+  /\ pend' = Put(pend, Ev.g, [op |-> Ev.op, b |-> Ev.b, k |-> Ev.k, v |-> Ev.v, hd |-> Ev.hd, lin |-> FALSE, res |-> <<>>])
+  /\ l' = l + 1 /\ UNCHANGED <<content, pos>>
 
 (* the internal step: the operation takes effect *)
 Lin(g) ==
   /\ g \in DOMAIN pend /\ ~pend[g].lin
   /\ pend' = [pend EXCEPT ![g].lin = TRUE, ![g].res = ResultOf(pend[g])]
   /\ content' = ContentAfter(pend[g])
+  /\ pos' = IF pend[g].op = "P" THEN [pos EXCEPT ![pend[g].hd] = @ + pend[g].k] ELSE pos
   /\ UNCHANGED l
 
 Ret ==
@@ -65,7 +69,7 @@ Ret ==
   /\ pend[Ev.g].lin /\ pend[Ev.g].res = Ev.res       \* enabled only if the logged result is the computed one
   /\ Ev.err = ""                                     \* ... and the operation (within the file's extent) succeeded
   /\ pend' = Del(pend, Ev.g)
-  /\ l' = l + 1 /\ UNCHANGED content
+  /\ l' = l + 1 /\ UNCHANGED <<content, pos>>
 
 Next == Reset \/ Skip \/ IdStress \/ Call \/ Ret \/ \E g \in DOMAIN pend : Lin(g)
 
